@@ -220,7 +220,7 @@ LOOM = {
     "C03": ["c03_add", "c03_excl", "c03_async", "c07_three", "c03_blocking"],
     "C04": ["c04_blocking", "c04_publish", "c08_handover", "c08_blocking"],
     "C05": ["c01_lock", "c05_three", "c05_starved", "c05_starved_held", "c05_barge", "c01_blocking", "c10_mutex_cancel"],
-    "C06": ["c02_async", "c06_mix", "c11_upgrade_async", "c02_blocking", "c10_rw_cancel"],
+    "C06": ["c02_async", "c06_mix", "c11_upgrade_async", "c02_blocking", "c10_rw_cancel", "c06_upgrade_race", "c06_write_race"],
     "C07": ["c03_async", "c07_three", "c03_blocking", "c10_sem_cancel", "c07_blocking_two"],
     "C08": ["c08_handover", "c04_blocking", "c08_blocking", "c08_wait_blocking_handover"],
     "C09": ["c09_barrier", "c09_blocking", "c09_cancel_race"],
